@@ -265,9 +265,19 @@ pub fn run(ctx: &Ctx) {
         },
     );
     ctx.subspace("proptest schedules up to 260 steps (about 100 cycles) + 12 lossless alternating cycles", n as u64, false);
+
+    // coverage-guided search over the same histories (libFuzzer target hist_c07: bytes -> operations -> this oracle);
+    // the committed corpus is replayed in-process in every tier, the campaign runs in the thorough tier
+    crate::targets::replay_corpus(ctx, "hist_c07");
+    if std::env::var("VCHECK_FUZZ").is_ok() && !ctx.quick() {
+        crate::fuzzdrv::run_campaign_par(ctx, "hist_c07", 160000, 16, 96);
+    }
 }
 
 pub fn replay(ctx: &Ctx, case: &Value) {
+    if crate::fuzzdrv::replay(ctx, case) {
+        return;
+    }
     if let Ok(c) = serde_json::from_value::<Case>(case["case"].clone()) {
         for _ in 0..8 {
             let o = run_case(ctx, &c);
